@@ -96,6 +96,8 @@ def oracle(case, ob):
         return "a value of the result is a copy of the argument's value, not the value itself"
     if ob.get("result_is_the_callers") is False:
         return "the result is not a new dictionary: what the caller wrote into it shows in a later result (or in an argument)"
+    if ob.get("chain_ok") is False:
+        return "the first argument was modified: an earlier result passed in again as `original` was updated in place"
     if ob.get("second_call_ok") is False:
         return "a second call with the same (meanwhile changed) argument objects did not merge what they hold now"
     return None
